@@ -293,6 +293,19 @@ def run_cvc5(smt2, timeout_s=CVC5_TIMEOUT_S):
 def discharge(ob, use_cvc5=True, timeout_ms=None, seed=0):
     """-> dict(verdict, backend, time, detail)"""
     t0 = time.time()
+    # stage 1: ground path facts only (most definedness / type / frame obligations need nothing else, and
+    # leaving the quantified facts out keeps the instantiation engine quiet); a subset of the assumptions,
+    # so `unsat` here is a proof
+    ground = [a for a in ob.assumptions if not _has_quantifier(a)]
+    if len(ground) < len(ob.assumptions):
+        s1 = smt.new_solver(2000, seed)
+        for a in relevant_axioms(ground, ob.goal):
+            s1.add(a)
+        for a in ground:
+            s1.add(a)
+        s1.add(z3.Not(ob.goal))
+        if s1.check() == z3.unsat:
+            return dict(verdict="discharged", backend="z3", time=time.time() - t0, detail="ground facts sufficed")
     s = smt.new_solver(timeout_ms or Z3_TIMEOUT_MS, seed)
     for a in relevant_axioms(ob.assumptions, ob.goal):
         s.add(a)
@@ -325,6 +338,29 @@ def discharge(ob, use_cvc5=True, timeout_ms=None, seed=0):
         elif c5 == "sat":
             res.update(verdict="refuted")
     return res
+
+
+_hq_cache = {}
+
+
+def _has_quantifier(t):
+    i = t.get_id()
+    if i in _hq_cache:
+        return _hq_cache[i]
+    stack = [t]
+    seen = set()
+    r = False
+    while stack:
+        x = stack.pop()
+        if x.get_id() in seen:
+            continue
+        seen.add(x.get_id())
+        if z3.is_quantifier(x):
+            r = True
+            break
+        stack.extend(x.children())
+    _hq_cache[i] = r
+    return r
 
 
 def model_summary(m, limit=60):
